@@ -67,7 +67,9 @@ func main() {
 		os.Setenv("VERIF_TIER", *tier)
 		r := vc.NewReport(id, *tier)
 		fn(&checks.Ctx{R: r, Tier: *tier, Thorough: *tier == "thorough", Args: fs.Args()})
-		os.Exit(r.Finish())
+		code := r.Finish()
+		vc.CleanupIsolated()
+		os.Exit(code)
 	case "replay":
 		if len(os.Args) < 3 {
 			usage()
